@@ -54,7 +54,7 @@ var advances = []int64{1, 59 * 60, 61 * 60, day - 60, day, day + 60, 4*day + 23*
 
 var recordOffsets = []int64{0, 1, hour, day - 60, day - 1, day, day + 1, day + 60, 30 * day, -1, -(hour - 1), -hour, -(hour + 1), -day}
 
-var foreignNames = []string{"README", "fuzz/x", "00/note.txt", "00/abc-x", "7f/name-ab", "ab/0123-a.tmp", "trimx.txt"}
+var foreignNames = []string{"README", "fuzz/x", "00/note.txt", "00/abc-x", "7f/name-ab", "ab/0123-a.tmp", "trimx.txt", "fuzz/seed-d", "othertool/index-a", "fuzz/corpus/x-a"}
 
 // genDur draws a duration in seconds: short gaps (decide whether a use
 // refreshes the mtime), values around the three thresholds of the statement with
@@ -100,7 +100,11 @@ func genPlan(t *rapid.T, tier string) any {
 	n := rapid.IntRange(2, max).Draw(t, "nsteps")
 	for i := 0; i < n; i++ {
 		s := Step{ID: rapid.IntRange(0, nIDs-1).Draw(t, "id")}
-		switch k := rapid.IntRange(0, 25).Draw(t, "kind"); {
+		switch k := rapid.IntRange(0, 26).Draw(t, "kind"); {
+		case k == 26:
+			// the process running Trim stops before one of its file operations
+			s.Kind = "trimcrash"
+			s.Secs = int64(rapid.IntRange(0, 900).Draw(t, "crashop"))
 		case k == 20 || k == 21:
 			// macro: let less than two hours pass, then look the entry up
 			s.Kind = "touch"
@@ -218,6 +222,11 @@ func run(t *testing.T, plan any, keep bool) *simcheck.Outcome {
 		fm.known = true
 	}
 	foreign := map[string]string{}
+	// model of the trim record: the instant of the last *completed* trim (set by Trim calls that
+	// returned and by the steps that rewrite trim.txt), not whatever the file holds right now
+	modelRec := ""
+	modelRecOK := false
+	crashes := 0
 	trimsDue, trimsNotDue, removed, keptNearBoundary := 0, 0, 0, 0
 	jumped := false
 
@@ -255,8 +264,8 @@ func run(t *testing.T, plan any, keep bool) *simcheck.Outcome {
 				}
 				st.Kind = "trim"
 			case "trimrec":
-				if b, err := os.ReadFile(filepath.Join(dir, "trim.txt")); err == nil {
-					if v, err := strconv.ParseInt(string(b), 10, 64); err == nil {
+				if modelRecOK {
+					if v, err := strconv.ParseInt(modelRec, 10, 64); err == nil {
 						advanceTo(time.Unix(v+st.Base+st.Secs, 0))
 					}
 				}
@@ -312,12 +321,16 @@ func run(t *testing.T, plan any, keep bool) *simcheck.Outcome {
 				switch st.Record {
 				case "valid":
 					os.WriteFile(path, []byte(strconv.FormatInt(now.Unix()-st.Secs, 10)), 0o666)
+					modelRec, modelRecOK = strconv.FormatInt(now.Unix()-st.Secs, 10), true
 				case "garbage":
 					os.WriteFile(path, []byte("not a number"), 0o666)
+					modelRecOK = false
 				case "empty":
 					os.WriteFile(path, nil, 0o666)
+					modelRecOK = false
 				case "missing":
 					os.Remove(path)
+					modelRecOK = false
 				}
 			case "plant":
 				path := filepath.Join(dir, st.Target)
@@ -339,10 +352,13 @@ func run(t *testing.T, plan any, keep bool) *simcheck.Outcome {
 					k := rel(path)
 					files[k] = &fileModel{lastUse: at, known: true}
 				}
-			case "trim":
-				// what does the record say?
+			case "trim", "trimcrash":
+				// when did a trim last complete, according to the history?
 				recPath := filepath.Join(dir, "trim.txt")
-				recBytes, recErr := os.ReadFile(recPath)
+				recBytes, recErr := []byte(modelRec), error(nil)
+				if !modelRecOK {
+					recErr = os.ErrNotExist
+				}
 				state := "due" // missing / unparsable / >= 24h old
 				if recErr == nil {
 					if v, perr := strconv.ParseInt(string(recBytes), 10, 64); perr == nil {
@@ -358,11 +374,37 @@ func run(t *testing.T, plan any, keep bool) *simcheck.Outcome {
 					}
 				}
 				before := snapshot(dir)
-				if err := c.Trim(); err != nil {
+				crashed := false
+				if st.Kind == "trimcrash" {
+					// the process running Trim stops before its k-th file operation
+					crashes++
+					proc := 100 + crashes
+					simos.Arm([]simos.Fault{{Proc: proc, Nth: int(st.Secs), Action: "halt-before"}})
+					done := false
+					s.Go("trimmer", proc, func() {
+						defer func() {
+							done = true
+							if r := recover(); r != nil {
+								if _, ok := r.(simos.Halt); ok {
+									crashed = true
+								}
+								panic(r)
+							}
+						}()
+						if c2, err := cache.Open(dir); err == nil {
+							c2.Trim()
+						}
+					})
+					simrt.Block("join", func() bool { return done })
+					simos.Disarm()
+				} else if err := c.Trim(); err != nil {
 					out.Violate("trim-error", "%s: Trim failed in a fault-free run: %v", where, err)
 					return
 				}
 				after := snapshot(dir)
+				if crashed {
+					state = "crashed" // only the keep and foreign-file clauses apply to an interrupted trim
+				}
 				// (b) foreign files untouched
 				for name, body := range foreign {
 					if got, ok := after[name]; !ok || got != body {
@@ -431,6 +473,21 @@ func run(t *testing.T, plan any, keep bool) *simcheck.Outcome {
 						delete(files, k)
 					}
 				}
+				switch state {
+				case "due":
+					modelRec, modelRecOK = strconv.FormatInt(now.Unix(), 10), true // this trim completed
+				case "future":
+					// the statement is silent on what happened: follow the file
+					if b, err := os.ReadFile(recPath); err == nil {
+						if _, perr := strconv.ParseInt(string(b), 10, 64); perr == nil {
+							modelRec, modelRecOK = string(b), true
+						} else {
+							modelRecOK = false
+						}
+					} else {
+						modelRecOK = false
+					}
+				}
 			}
 			if out.Violation != nil {
 				return
@@ -447,6 +504,7 @@ func run(t *testing.T, plan any, keep bool) *simcheck.Outcome {
 	if out.SimSeconds < 0 {
 		out.SimSeconds = 0
 	}
+	out.Count("fired_trim_process_halted", int64(rep.Halts))
 	out.Count("trims_due", int64(trimsDue))
 	out.Count("trims_not_due", int64(trimsNotDue))
 	out.Count("entry_files_removed_by_trim", int64(removed))
@@ -474,7 +532,7 @@ var harness = &simcheck.Harness{
 	Level:    "exploration",
 	Rule: "rapid draws a history of up to 16 (quick) / 30 (thorough) steps: Put, Get, GetBytes, GetFile, OutputFile, clock advances drawn mostly from boundary values " +
 		"(1s ... 24h+-1m, 5d+-1m, 5d1h+-1s/1m, 30d), Trim, trim-record rewrites (valid with recent/old/future offsets, garbage, empty, missing), foreign files, " +
-		"directly aged entry files, and (a quarter of the plans) backward clock jumps; plus macro steps (look an entry up after a gap of under two hours; move the clock to an entry file's last use + 5d or 5d1h +- jitter and Trim; move it to the trim record + 24h +- jitter and Trim); non-trivial = the history contains a Trim; " +
+		"directly aged entry files, and (a quarter of the plans) backward clock jumps; plus macro steps (look an entry up after a gap of under two hours; move the clock to an entry file's last use + 5d or 5d1h +- jitter and Trim; move it to the trim record + 24h +- jitter and Trim; a Trim whose process halts before its k-th file operation); non-trivial = the history contains a Trim; " +
 		"distinct by the hash of the intercepted file-operation sequence",
 	Gen:     genPlan,
 	NewPlan: func() any { return &Plan{} },
